@@ -974,7 +974,14 @@ OrcProgram *ps_build (ProgSpec *ps)
       case VK_ACC: v->orcvar = orc_program_add_accumulator (p, v->size, v->name); if (tn) orc_program_set_type_name (p, v->orcvar, tn); break;
       case VK_CONST:
         if (v->size == 8) v->orcvar = orc_program_add_constant_int64 (p, v->size, (orc_int64) v->cval, v->name);
-        else v->orcvar = orc_program_add_constant (p, v->size, (int) (uint32_t) v->cval, v->name);
+        else {
+          /* a 1- or 2-byte constant with its top bit set is passed either zero-extended (0xff) or sign-extended (-1): callers and
+             the parser ("-1") do both, and only the low bytes may matter (a pure function of the program: no choice is consumed) */
+          int iv = (int) (uint32_t) v->cval;
+          if (v->size == 1 && (v->cval & 0x80) && (v_mix64 (v->cval * 31u + (uint64_t) i) & 1)) iv = (int) (int8_t) v->cval;
+          if (v->size == 2 && (v->cval & 0x8000) && (v_mix64 (v->cval * 31u + (uint64_t) i) & 1)) iv = (int) (int16_t) v->cval;
+          v->orcvar = orc_program_add_constant (p, v->size, iv, v->name);
+        }
         break;
       case VK_PARAM:
         switch (v->ptype) {
@@ -1158,6 +1165,7 @@ void ps_entitlement (const ProgSpec *ps, const RunCfg *rc, int v, long *lo, long
   *lo = l; *hi = h;
 }
 
+int arena_map_32bit;              /* set by callers that run 32-bit code: arrays are mapped below 4 GiB */
 #define PAGE 4096
 #define CANARY(off) ((unsigned char) (0x5a + 37 * (off)))
 
@@ -1190,7 +1198,7 @@ int arena_build (Arena *ar, const ProgSpec *ps, const RunCfg *rc, int protect_so
     body = (body + PAGE - 1) / PAGE * PAGE;
     if (body == 0) body = PAGE;
     a->map_len = (size_t) body + 2 * PAGE;
-    a->map = (unsigned char *) mmap (NULL, a->map_len, PROT_READ | PROT_WRITE, MAP_PRIVATE | MAP_ANONYMOUS, -1, 0);
+    a->map = (unsigned char *) mmap (NULL, a->map_len, PROT_READ | PROT_WRITE, MAP_PRIVATE | MAP_ANONYMOUS | (arena_map_32bit ? MAP_32BIT : 0), -1, 0);
     if (a->map == MAP_FAILED) { a->map = NULL; return -1; }
     mprotect (a->map, PAGE, PROT_NONE);
     mprotect (a->map + PAGE + body, PAGE, PROT_NONE);
